@@ -171,7 +171,8 @@ def _world(ctx, names):
 def _names(ctx):
     """md-grids and, per md-grid, the bound on Len(list) + Len(second) of the enumeration and the nd values."""
     if ctx.quick:
-        return ["cross2", "frac3", "refined2"], [4, 4, 3], [{1, 2}, {1, 3}, {1, 2}]
+        # refined2 has the topology of cross2: nd = 1 on the one, nd = 2 on the other
+        return ["cross2", "frac3", "refined2"], [4, 4, 3], [{1}, {1, 3}, {2}]
     return (["cross2", "frac3", "three2", "nonmatch2", "refined2", "refined2x"], [5, 4, 4, 4, 4, 4],
             [{1, 2, 3}] * 4 + [{1, 2}, {1, 3}])
 
